@@ -134,6 +134,40 @@ class WithMetaAndCall(metaclass=Meta):
     return ('instance-call', a, b)
 
 
+class SubMeta(Meta):
+  """Inherits the Python __call__ of its base metaclass."""
+
+
+class WithSubMeta(metaclass=SubMeta):
+  pass
+
+
+def exc_state_fn(a, b=2):
+  # what the target sees of "the exception being handled" is part of its behaviour
+  import sys
+  et = sys.exc_info()[0]
+  name = et.__name__ if et is not None else 'none'
+  LOG.append(('exc_state_fn', a, b, name))
+  if a > 2:
+    raise KeyError(name)
+  return ('exc_state', name, a + b)
+
+
+def _exc_state_impl(tag, a, b=2):
+  import sys
+  et = sys.exc_info()[0]
+  name = et.__name__ if et is not None else 'none'
+  LOG.append(('exc_state_impl', tag, a, b, name))
+  if a > 2:
+    raise KeyError(name)
+  return ('exc_state', tag, name, a + b)
+
+
+class NativeCall(object):
+  """A callable object whose __call__ has no Python code of its own."""
+  __call__ = functools.partial(_exc_state_impl, 'native-call')
+
+
 class ShadowedCall(object):
   """An instance attribute named __call__ does not change what obj(...) runs."""
 
@@ -602,7 +636,9 @@ def build(base):
   return Plain, Over
 '''
 
-ALLOW_NAMES = ['malt.simpool', 'numpy.simpool', 'collections.simpool']
+ALLOW_NAMES = ['malt.simpool', 'numpy.simpool', 'collections.simpool', 'tensorflow.simpool']
+# an explicit Convert rule nested inside a DoNotConvert package (first match wins)
+CONVERT_NAMES = ['tensorflow.python.training.experimental.simpool']
 LOOKALIKE_NAMES = ['malty', 'numpy_like', 'reporting', 'copyx']
 
 Z = {}
@@ -686,9 +722,14 @@ def build_pool(lane, which):
   common.write_module(upath, USER_SRC)
   U = common.load_module(pre + 'simc13_user', upath)
   named = {}
-  for nm in ALLOW_NAMES + LOOKALIKE_NAMES:
+  for nm in ALLOW_NAMES + LOOKALIKE_NAMES + CONVERT_NAMES:
     real = nm if which == 'a' else (pre + nm.replace('.', '_'))
     named[nm] = _load_named(lane, base, real, nm.replace('.', '_'), nm)
+  # a plugin loaded by path and never registered in sys.modules (one more named module, two functions: the
+  # second is first seen after the first was called)
+  upath2 = os.path.join(base, 'plugin', 'simc13_plugin.py')
+  common.write_module(upath2, NAMED_SRC % {'tag': 'plugin'})
+  named['@plugin'] = common.load_module(pre + 'simc13_plugin', upath2, register=False)
   spath = os.path.join(base, 'sub', 'simc13_sub.py')
   common.write_module(spath, SUB_SRC)
   S = common.load_module(pre + 'simc13_sub', spath)
@@ -717,6 +758,11 @@ def build_pool(lane, which):
   add('slotted_callable', 'callable_obj', U.Slotted(), fnname='__call__')
   add('metaclass_call2', 'callable_obj', U.WithMetaAndCall, fnname='__call__')
   add('shadowed_call', 'callable_obj', U.ShadowedCall(), fnname='__call__')
+  add('metaclass_call_inherited', 'callable_obj', U.WithSubMeta, fnname='__call__')
+  add('exc_state_fn', 'function', U.exc_state_fn, fnname='exc_state_fn')
+  add('native_call_obj', 'native', U.NativeCall())
+  import operator
+  add('methodcaller', 'native', operator.methodcaller('meth', 2), argsets='self_only', self_obj=c1)
   add('manual_bound', 'function', types.MethodType(U.free_method, c1), fnname='free_method')
   add('symbolic_eq_callable', 'callable_obj', U.SymbolicCallable(), fnname='__call__')
   add('strict_eq_callable', 'callable_obj', U.StrictEqCallable(), fnname='__call__')
@@ -808,8 +854,10 @@ def build_pool(lane, which):
   # modules allow-listed by name / look-alikes
   for nm in ALLOW_NAMES:
     add('mod:%s' % nm, 'allowlisted_module', named[nm].fn, fnname='fn', module_rule=nm)
-  for nm in LOOKALIKE_NAMES:
+  for nm in LOOKALIKE_NAMES + CONVERT_NAMES:
     add('mod:%s' % nm, 'function', named[nm].fn, fnname='fn')
+  add('unregistered_mod_fn', 'function', named['@plugin'].fn, fnname='fn')
+  add('unregistered_mod_method', 'function', named['@plugin'].K(2).tot, fnname='tot')
   k_np = named['numpy.simpool'].K(2)
   add('np_method', 'allowlisted_module', k_np.tot, fnname='tot', module_rule='numpy.simpool')
   add('np_callable', 'allowlisted_module', k_np, fnname='__call__', module_rule='numpy.simpool')
@@ -866,6 +914,8 @@ def init_zygote(lane):
     lb, objb, kwb = B['targets'][name]
     self_b = kwb.get('self_obj')
     t = Target(name, label, obj, objb, **kw)
+    if t.argsets == 'self_only':
+      t.argsets = [(('@self',), None)]
     if t.argsets == 'self_a':
       t.argsets = [(('@self', 1), None), (('@self', -1, 5), None), (('@self',), {'a': 2}), ((), None)]
       t.remember_exempt = False
@@ -1018,6 +1068,8 @@ def _gen_fault(rng, tier):
   return {'kind': 'disk-full', 'budget': rng.choice([0, 10, 200, 1000])}
 
 
+SWEEP_EXC = ['ValueError', 'KeyError', 'OSError:ENOSPC', 'AssertionError', 'AttributeError', 'MemoryError']
+
 RELATED = {
     'class': ['callable', 'bound', 'cmeth_inst', 'unbound'], 'partial_class': ['callable', 'class'],
     'callable': ['class'], 'nt_class': ['nt_method'], 'ntsub_class': ['nt_method'],
@@ -1025,11 +1077,13 @@ RELATED = {
     'art_dnc': ['fn'], 'art_convert': ['smeth'], 'art_to_graph': ['nested', 'nested2'],
     'bound': ['unbound', 'partial_method'], 'cmeth': ['cmeth_inst'], 'np_method': ['np_sub_overridden', 'np_sub_inherited'],
     'mod:numpy.simpool': ['mod:numpy_like'], 'mod:malt.simpool': ['mod:malty'], 'tc_method': ['bound'],
+    'mod:tensorflow.simpool': ['mod:tensorflow.python.training.experimental.simpool'],
+    'mod:tensorflow.python.training.experimental.simpool': ['mod:tensorflow.simpool'],
     'cached': ['fn'], 'gen': ['fn'], 'len': ['len_tape'], 'posixpath_join': ['fn', 'nested', 'lam', 'smeth'],
     'fn': ['posixpath_join'],
 }
 
-CONVERTIBLE = ['caller', 'caller', 'dup_kw_caller', 'multiline_string_method', 'lists_user', 'multi_assign', 'multi_assign', 'super_in_branch', 'twice_caller', 'twice_caller', 'kwonly_required', 'symbolic_eq_callable', 'strict_eq_callable', 'pseudo_file_fn', 'badrepr_method', 'badrepr_callable', 'local_gen_caller', 'decorated_local_caller', 'metaclass_call2', 'shadowed_call', 'fn', 'star_caller', 'nested2', 'raiser_passthrough', 'raiser', 'falsy_bag_method', 'falsy_obj_method', 'nt_method', 'metaclass_call', 'slotted_callable', 'manual_bound', 'fn', 'lam', 'nested', 'bound', 'unbound', 'cmeth', 'cmeth_inst', 'smeth', 'callable',
+CONVERTIBLE = ['exc_state_fn', 'exc_state_fn', 'metaclass_call_inherited', 'unregistered_mod_fn', 'caller', 'caller', 'dup_kw_caller', 'multiline_string_method', 'lists_user', 'multi_assign', 'multi_assign', 'super_in_branch', 'twice_caller', 'twice_caller', 'kwonly_required', 'symbolic_eq_callable', 'strict_eq_callable', 'pseudo_file_fn', 'badrepr_method', 'badrepr_callable', 'local_gen_caller', 'decorated_local_caller', 'metaclass_call2', 'shadowed_call', 'fn', 'star_caller', 'nested2', 'raiser_passthrough', 'raiser', 'falsy_bag_method', 'falsy_obj_method', 'nt_method', 'metaclass_call', 'slotted_callable', 'manual_bound', 'fn', 'lam', 'nested', 'bound', 'unbound', 'cmeth', 'cmeth_inst', 'smeth', 'callable',
                'decorated', 'caller', 'raiser', 'partial1', 'partial_nested', 'partial_method',
                'partial_chain', 'partial_chain3', 'partial_subclass',
                'mod:malty', 'mod:numpy_like', 'mod:reporting', 'mod:copyx', 'np_sub_overridden',
@@ -1091,6 +1145,22 @@ def make_plan(seed, index, tier, sub):
           op['fault']['point'] = pts[j % len(pts)]
           op['fault']['when'] = 'entry' if (j // len(pts)) % 2 == 0 else 'exit'
           op['fault']['nth'] = 1
+      ops.append(op)
+  if sub != 'clean' and index % 6 == 5:
+    # sweep: every injection point x edge x exception kind against a target that raises at run time, each
+    # request under its own option set (nothing remembered in between): what a failed or degraded stage
+    # leaves behind must not change what the caller sees of the target's own exception
+    pts = Z['points']
+    ops = []
+    for k in range(nops):
+      j = (index // 6) * 40 + k
+      name = ('raiser', 'raiser_passthrough')[k % 2]
+      op = {'target': name, 'args': rng.choice([0, 2, 3, 3, 1]),
+            'opts': {'rec': bool(k & 2), 'ur': bool(k & 4), 'icuc': True, 'feats': (k // 8) % len(FEATSETS)},
+            'status': rng.choice(STATUSES[:2]), 'via_scope': False, 'strict': False,
+            'fault': {'kind': 'stage-exc', 'point': pts[j % len(pts)], 'nth': 1,
+                      'when': 'entry' if (j // len(pts)) % 2 == 0 else 'exit',
+                      'exc': SWEEP_EXC[(j // (2 * len(pts))) % len(SWEEP_EXC)]}}
       ops.append(op)
   for op in ops:
     if Z['targets'][op['target']].lists_ok and rng.random() < 0.5:
@@ -1257,6 +1327,7 @@ class Run(object):
         undo = self._apply_env_fault(fault, t)
     if op.get('strict'):
       os.environ['AUTOGRAPH_STRICT_CONVERSION'] = '1'
+    raised0 = len(self.inj.scope_raised)
     hits0 = dict(Z['overload_hits'])
     OBS['requests'] = []
     OBS['fallbacks'] = []
@@ -1306,6 +1377,13 @@ class Run(object):
                                   fault.get('exc', '-'), fault['kind']])
     converted = any(isinstance(x, (list, tuple)) and x and x[0] in ('FunctionScope', 'with_function_scope')
                     for x in tr)
+    # An injected stage failure means "the conversion failed" only if the pipeline let it: a pipeline that
+    # absorbs the failure and still runs converted code has not failed, and owes neither fallback nor warning.
+    # ("failed" = an exception left the transpiler's transform_function)
+    absorbed = fired and fault['kind'] == 'stage-exc' and len(self.inj.scope_raised) == raised0 and not fallbacks
+    if absorbed:
+      self.stats['faults_absorbed'] = self.stats.get('faults_absorbed', 0) + 1
+      fired = False
     rec.update({'got': got, 'exp': exp, 'requests': requests, 'warnings': len(warns), 'optrace': common.jsonable(tr)[:12],
                 'fired': bool(fired), 'converted': converted, 'status': op['status'],
                 'strict': bool(op.get('strict'))})
@@ -1359,7 +1437,10 @@ class Run(object):
       return
     natural = (t.label in ('unsupported', 'coroutine')) or (t.fails_under == 'LISTS' and eff['feats'] == 9)
     # strict mode + a target the pipeline rejects by itself: the rejection propagates
-    if op.get('strict') and requests and not fallbacks and (natural or t.label == 'generator') \
+    # (also for targets whose convertibility the documents leave open - e.g. a frozen stdlib function
+    # requested explicitly: whether its source is available is not for this check to say)
+    strict_open = model_converts(t, eff, op['status'], False) is None
+    if op.get('strict') and requests and not fallbacks and (natural or t.label == 'generator' or strict_open) \
         and got[0] == 'exc':
       self.stats['strict_raises'] += 1
       if len(got_log) > len(exp_log):
